@@ -100,6 +100,18 @@ let marker : n list list = [ [N0; n_of_int 3]; [n_of_int 0xee; n_of_int 0xee; n_
 
 (* ------------------------------------------------------------------ qw *)
 let via_of t = match gs t "via" "conn" with "conn" -> ViaConnection | _ -> ViaOpener
+
+(* the adapter stream under test, obtained the way the harness obtains it: kind=bi poll_open_bidi of the chosen
+   `impl OpenStreams`, kind=uni poll_open_send (A sends) / poll_accept_recv (A receives), kind=bip poll_accept_bidi;
+   Quinn's open/accept future answered with the stream `id` *)
+let open_streams via kind id a_sends : send_stream option * recv_stream option =
+  match kind with
+  | "bi" -> (match open_bidi via (Ok id) with Ok b -> Some b.b_send, Some b.b_recv | _ -> failwith "open_bidi fails")
+  | "bip" -> (match accept_bidi (Ok id) with Ok b -> Some b.b_send, Some b.b_recv | _ -> failwith "accept_bidi fails")
+  | "uni" when a_sends -> (match open_send via (Ok id) with Ok x -> Some x, None | _ -> failwith "open_send fails")
+  | "uni" -> (match accept_recv (Ok id) with Ok x -> None, Some x | _ -> failwith "accept_recv fails")
+  | _ -> failwith "kind"
+let some = function Some x -> x | None -> failwith "no such half"
 let wire_of chunks = List.fold_left (fun a c -> a + List.length c) 0 chunks
 
 let run_qw t =
@@ -115,7 +127,12 @@ let run_qw t =
   let ps_len = gopt t "ps" in
   let peer_fault = (fname = "stop" || fname = "close" || fname = "timeout") in
   let id = stream_id role kind skip true in
-  let s = ref (send_new (qsend_new id)) in
+  let shalf, rhalf = open_streams via kind id true in
+  let s = ref (some shalf) in
+  let nofin = (fname = "nofin") in
+  let pr0 = gi t "pr0" 0 = 1 in
+  let pr0_out = ref "-" and pr1_out = ref "-" in
+  let show_ready = function ((Ready r, _), _) -> res_unit r | ((Pending, _), _) -> "pending" in
   let ids = ref [] in
   let q bit = if mask land (1 lsl bit) <> 0 then
       ids := (match send_id !s with Ok i -> i | _ -> failwith "send_id panics") :: !ids in
@@ -143,6 +160,9 @@ let run_qw t =
     done;
     (match !out with Some r -> r | None -> assert false) in
   if fname = "afin" then (match poll_fin () with Ok _ -> () | r -> res := "finerr:" ^ res_unit r);
+  (* pr0=1: poll_ready on a stream that has nothing to write (before the first send_data, and again after the last
+     buffer went out); Quinn is not consulted *)
+  if pr0 then pr0_out := show_ready (poll_ready [] !s);
   let sent = ref 0 in
   let stop = ref false in
   List.iteri (fun j chunks ->
@@ -176,7 +196,7 @@ let run_qw t =
               | Some _ when peer_fault -> allowed () <= 0
               | _ -> false) in
             let oracle =
-              if !first_pending then [WBlocked]
+              if !first_pending then (if (seed + j) land 1 = 1 then [] else [WBlocked])
               else if fail_now then [fail_answer ()]
               else [WAccept (n_of_int (min step (allowed ()))); WBlocked] in
             let before = List.length (!s).s_q.qs_log in
@@ -213,11 +233,36 @@ let run_qw t =
         end
       end
     end) bufs;
+  (* sa=1: after a failed write the buffer in flight has been given up: the next send_data is accepted, and Quinn
+     refuses again (a stopped stream / a lost connection / a finished stream stays that way) *)
+  let is_err x = String.length x >= 4 && String.sub x 0 4 = "err:" in
+  let at_send x = String.length x >= 5 && String.sub x (String.length x - 5) 5 = "@send" in
+  let sa_rounds = gi t "sa" 0 in
+  let sa_run = sa_rounds > 0 && is_err !res && not (at_send !res) in
+  let sa_out = if sa_run then
+      String.concat "," (List.init sa_rounds (fun _ ->
+        match send_data marker !s with
+        | (Ok _, s') -> s := s'; "ok/" ^ show_ready (let ((r, s''), o') = poll_ready [fail_answer ()] !s in s := s''; ((r, s''), o'))
+        | (Err e, _) -> "refused:" ^ stream_class e
+        | (Panic _, _) -> "PANIC"))
+    else "-" in
+  (* finish() on a stream the peer has stopped: Quinn 0.11 answers Ok ("harmless") *)
+  let saf_out = if sa_run && fname = "stop" then begin
+      let fin () = (match poll_finish [fail_answer ()] !s with
+          | ((Ready r, s'), _) -> s := s'; res_unit r | ((Pending, _), _) -> "pending") in
+      (* first with a buffer in flight (the drain is refused by Quinn), then with nothing left *)
+      let drained = (match send_data marker !s with
+          | (Ok _, s') -> s := s'; "ok/" ^ fin ()
+          | (Err e, _) -> "refused:" ^ stream_class e
+          | (Panic _, _) -> "PANIC") in
+      drained ^ "," ^ fin () end
+    else "-" in
   q 3;
+  if pr0 && !res = "ok" && not !cancelled then pr1_out := show_ready (poll_ready [] !s);
   let ps_out = ref "-" in
   let ps_bytes = match ps_len with Some n -> gen_bytes seed 1000 0 n | None -> [] in
   (match ps_len with
-   | Some n when (fname = "none" || peer_fault) && !res = "ok" ->
+   | Some n when (fname = "none" || nofin || peer_fault) && !res = "ok" ->
      ps_out := "ok";
      let take a b = List.filteri (fun i _ -> i >= a && i < b) ps_bytes in
      let buf = ref (if n = 0 then [] else if seed land 1 = 1 && n >= 3 then
@@ -227,7 +272,9 @@ let run_qw t =
      while !ps_out = "ok" && List.concat !buf <> [] do
        incr guard; if !guard > 100000 then failwith "model poll_send loop";
        let before = List.length (List.concat !buf) in
-       let oracle = if peer_fault && allowed () <= 0 then [fail_answer ()] else [WAccept (n_of_int (min step (allowed ())))] in
+       let oracle = if peer_fault && allowed () <= 0 then [fail_answer ()]
+         else if !guard land 3 = 1 then [] else if !guard land 3 = 3 then [WBlocked]
+         else [WAccept (n_of_int (min step (allowed ())))] in
        (match poll_send oracle !buf !s with
         | (((Ready (Ok k), s'), b'), _) -> s := s'; buf := b';
           accepted_total := !accepted_total + int_of_n k;
@@ -236,6 +283,14 @@ let run_qw t =
         | (((Pending, _), _), _) -> ())
      done
    | _ -> ());
+  (* pse=1: poll_send with an empty buffer (nothing to take: 0 bytes written, whatever Quinn is willing to accept) *)
+  let pse = gi t "pse" 0 = 1 && (fname = "none" || nofin) && !res = "ok" && (!ps_out = "-" || !ps_out = "ok") in
+  let pse_out = if not pse then "-" else
+      (match poll_send [WAccept (n_of_int (1 + seed))] [] !s with
+       | (((Ready (Ok k), s'), _), _) -> s := s'; "ok:" ^ string_of_n k
+       | (((Ready (Err e), _), _), _) -> "err:" ^ stream_class e
+       | (((Ready (Panic _), _), _), _) -> "PANIC"
+       | (((Pending, _), _), _) -> "pending") in
   let end_ = ref "open" in
   (match fname with
    | "none" -> if !res = "ok" && (!ps_out = "-" || !ps_out = "ok") then
@@ -260,17 +315,29 @@ let run_qw t =
           | (r, _) -> r) in
         res := res_unit r)
    | _ -> ());
+  (* tail=op.op..: more calls on the stream once it has been finished / reset: r<code> reset, f poll_finish, p poll_ready *)
+  let tail = (match gs t "tail" "-" with "-" -> [] | x -> String.split_on_char '.' x) in
+  let tl_out = ref [] in
+  List.iter (fun op ->
+    match op.[0] with
+    | 'r' -> (match send_reset (n_of_string (String.sub op 1 (String.length op - 1))) !s with
+        | (Ok _, s') -> s := s' | _ -> tl_out := "PANIC-reset" :: !tl_out)
+    | 'f' -> tl_out := res_unit (poll_fin ()) :: !tl_out
+    | 'p' -> tl_out := show_ready (poll_ready (if fname = "afin" then [fail_answer ()] else []) !s) :: !tl_out
+    | _ -> failwith "tail op") tail;
   q 4;
-  (* drop=1: the adapter stream is dropped now; what Quinn is left with *)
-  let qs = if gi t "drop" 0 = 1 then send_drop !s else (!s).s_q in
+  (* drop=1: the adapter stream is dropped now; what Quinn is left with (nofin: dropped without finish or reset) *)
+  let qs = if gi t "drop" 0 = 1 || nofin then send_drop !s else (!s).s_q in
   (match fname with
    | "stop" -> end_ := "stopped" | "close" -> end_ := "closed" | "timeout" -> end_ := "silent"
    | "lclose" -> ()
    | _ -> (match qs.qs_reset with
        | Some c -> end_ := "reset:" ^ string_of_n c
        | None -> if qs.qs_finished then end_ := "fin"));
-  let rid = if kind = "uni" then "-" else
-      (match bidi_new id with Ok b -> (match recv_id b.b_recv with Ok i -> string_of_n i | _ -> "PANIC") | _ -> "PANIC") in
+  let rid = match rhalf with None -> "-" | Some r -> (match recv_id r with Ok i -> string_of_n i | _ -> "PANIC") in
+  let extra = (if gi t "pse" 0 = 1 then " pse=" ^ pse_out else "")
+              ^ (if sa_rounds > 0 then Printf.sprintf " sa=%s saf=%s alive=1" sa_out saf_out else "") ^ (if pr0 then Printf.sprintf " pr0=%s pr1=%s" !pr0_out !pr1_out else "")
+              ^ (if tail <> [] then " tl=" ^ (if !tl_out = [] then "-" else String.concat "/" (List.rev !tl_out)) else "") in
   let handed_frames = List.mapi (fun j chunks -> (j, buffer_chunks seed j chunks)) bufs in
   let trunc = if fname <> "cfin" then "" else
       " trunc=" ^ (if not !cancelled then "na" else
@@ -278,33 +345,37 @@ let run_qw t =
         if List.length qs.qs_log < accepted then "yes" else "no") in
   let model = Printf.sprintf "ok res=%s recv=%s pfx=ok end=%s ids=%s pid=%s rid=%s dbl=%s dblp=%s ps=%s psp=%s%s%s"
       !res (digest qs.qs_log) !end_ (show_ids (List.rev !ids)) (string_of_n qs.qs_id) rid !dbl_out !dblp_out !ps_out !psp_out
-      trunc (match !fin2 with Some f -> " fin2=" ^ f | None -> "") in
+      trunc ((match !fin2 with Some f -> " fin2=" ^ f | None -> "") ^ extra) in
   (* ---- specification line *)
   let framed_total = List.fold_left (fun a (_, f) -> a + wire_of f) 0 handed_frames in
   let fault_class = match spec_write_fault (fault_of fname fcode) with Some e -> "err:" ^ stream_class e | None -> "ok" in
   let fault_in_frames = peer_fault && fat_i < framed_total in
   let sres = match fname with
-    | "none" | "areset" -> "ok"
+    | "none" | "areset" | "nofin" -> "ok"
     | "cfin" -> "ok"
     | "lclose" -> if ps_len = None then fault_class else "ok"
     | _ when peer_fault -> if fault_in_frames then fault_class else "ok"
+    | "afin" when bufs = [] -> "ok"          (* nothing is written after the finish *)
     | _ -> fault_class in
   let sps = match ps_len with
     | None -> "-"
     | Some _ ->
       (match fname with
-       | "none" -> "ok"
+       | "none" | "nofin" -> "ok"
        | "lclose" -> fault_class
        | _ when peer_fault -> if fault_in_frames then "-" else fault_class
        | _ -> "-") in
-  let srecv = if fname = "none" then
-      digest (spec_handed (List.map (fun (_, f) -> EvAccepted f) handed_frames @ [EvRaw ps_bytes]))
+  let srecv = if fname = "none" || nofin then
+      (* the history the application saw: every buffer accepted; the marker buffer offered on top of buffer J refused *)
+      digest (spec_handed (List.concat (List.map (fun (j, f) ->
+          EvAccepted f :: (if dbl = Some j then [EvRefused] else []) @ (if dblp = Some j then [EvRefused] else [])
+          @ (if mask land 4 <> 0 then [EvSendOther] else [])) handed_frames) @ [EvRaw ps_bytes]))
     else if fname = "cfin" then
       (* every buffer accepted before the stream was finished, whole - the abandoned one included *)
       digest (spec_handed (List.filter_map (fun (j, f) -> if j <= fat_i then Some (EvAccepted f) else None) handed_frames))
     else "*" in
   let send_ = match fname with
-    | "none" | "afin" | "cfin" -> "fin" | "stop" -> "stopped" | "close" -> "closed" | "timeout" -> "silent"
+    | "none" | "afin" | "cfin" | "nofin" -> "fin" | "stop" -> "stopped" | "close" -> "closed" | "timeout" -> "silent"
     | "areset" -> "reset:" ^ string_of_n (spec_reset_code fcode)
     | "lclose" -> "close:" ^ string_of_n fcode | _ -> "*" in
   let sid = string_of_n id in
@@ -312,7 +383,7 @@ let run_qw t =
   (* everything below is computed from the CASE LINE only (never from the model run above) *)
   let nb = List.length bufs in
   let reached j = match fname with
-    | "none" -> Some (j < nb)
+    | "none" | "nofin" -> Some (j < nb)
     | "afin" -> Some (j = 0 && nb > 0)
     | "areset" | "lclose" -> Some (j < min fat_i nb)
     | "cfin" -> Some (j <= fat_i && j < nb)
@@ -327,7 +398,21 @@ let run_qw t =
       sps
       (at_buffer psp "panic")
       (if fname = "cfin" then " trunc=no" else "")
-      (if fname = "afin" then " fin2=err:unknown" else "") in
+      ((if fname = "afin" then " fin2=err:unknown" else "")
+       (* a stream with nothing to write is ready; finishing a stream that is already finished or reset is an error *)
+       ^ (if gi t "pse" 0 = 1 then (if fname = "none" || nofin then " pse=ok:0" else " pse=-") else "")
+       (* after a failed write the next buffer is accepted and fails in the class of the stream's failure *)
+       ^ (if sa_rounds > 0 then
+            " sa=" ^ (if sres = "ok" || fname = "lclose" then "-" else if sres = fault_class then
+                        String.concat "," (List.init sa_rounds (fun _ -> "ok/" ^ fault_class)) else "*")
+            (* a finish that has to write first fails like the stream; what finish() itself says on a stopped stream is Quinn's *)
+            ^ " saf=" ^ (if fname = "stop" && sres = fault_class then "ok/" ^ fault_class ^ ",*" else "*") ^ " alive=1" else "")
+       ^ (if pr0 then " pr0=ok pr1=*" else "")
+       ^ (if tail = [] then "" else
+            let l = List.filter_map (fun op -> match op.[0] with
+                | 'f' -> Some (if fname = "none" || fname = "afin" || fname = "areset" then "err:unknown" else "*")
+                | 'p' -> Some (if fname = "afin" && bufs <> [] then "*" else "ok") | _ -> None) tail in
+            " tl=" ^ (if l = [] then "-" else String.concat "/" l))) in
   model ^ " | " ^ spec
 
 (* ------------------------------------------------------------------ qr *)
@@ -342,7 +427,8 @@ let run_qr t =
     | None -> N0, "none" in
   let chunks = let b = gs t "chunks" "-" in if b = "-" then [] else List.map int_of_string (String.split_on_char ',' b) in
   let id = stream_id role kind skip false in
-  let r = ref (match recv_new (qrecv_new id) with Ok r -> r | _ -> failwith "recv_new panics") in
+  let shalf, rhalf = open_streams (via_of t) kind id false in
+  let r = ref (some rhalf) in
   let ids = ref [] in
   let q bit = if mask land (1 lsl bit) <> 0 then
       ids := (match recv_id !r with Ok i -> string_of_n i | _ -> "PANIC") :: !ids in
@@ -354,20 +440,23 @@ let run_qr t =
     | Ready (Err e) -> "err:" ^ stream_class e
     | Ready (Panic s) -> "PANIC" ^ string_of_n s in
   let poll a =
-    let ((x, r'), _) = poll_data [a] !r in
+    (* a Quinn that has no answer yet: RBlocked, or (odd seeds) an oracle with nothing left *)
+    let ((x, r'), _) = poll_data (if a = RBlocked && seed land 1 = 1 then [] else [a]) !r in
     r := r';
     (match x with
      | Pending -> events := EvReadPending :: !events
      | Ready v -> events := EvReadReady :: !events;
        (match v with Ok (Some b) -> got := b :: !got | _ -> ()));
     x in
+  (* a stop_sending call that panics (a code that is no varint) leaves the stream as it was *)
+  let sp_out = ref "-" in
   let stop_sending c =
     match stop_sending c !r with
-    | (Ok _, r') -> r := r'; events := EvStop c :: !events
-    | _ -> failwith "stop_sending panics" in
+    | (Ok _, r') -> r := r'; events := EvStop c :: !events; true
+    | _ -> sp_out := "PANIC"; false in
   let stopped = ref false in
   q 0;
-  if stop_when = "idle" then (stop_sending stop_code; stopped := true);
+  if stop_when = "idle" then stopped := stop_sending stop_code;
   (* Quinn: a read after a local stop reports the end of the stream *)
   let p1 = poll (if !stopped then RFin else RBlocked) in
   let p1s = show p1 in
@@ -377,11 +466,11 @@ let run_qr t =
     | Ready (Panic s) -> Some ("PANIC" ^ string_of_n s) | _ -> None) in
   let p2s = ref "-" in
   if String.length stop_when >= 4 && String.sub stop_when 0 4 = "pend" then begin
-    stop_sending stop_code;
-    if stop_when = "pend2" then stop_sending (N.add stop_code (n_of_int 1));
+    let ok1 = stop_sending stop_code in
+    let ok2 = if stop_when = "pend2" then stop_sending (N.add stop_code (n_of_int 1)) else false in
     q 3;
     p2s := show (poll RBlocked);
-    stopped := true
+    stopped := ok1 || ok2
   end;
   (* the answers Quinn gives from here on *)
   let answers =
@@ -395,12 +484,14 @@ let run_qr t =
            let keep = n - written in
            List.rev (if keep > 0 then RChunk (gen_bytes seed j 0 keep) :: acc else acc)
          | _ -> go (if l > 0 then RChunk (gen_bytes seed j 0 l) :: acc else acc) (written + l) rest) in
-    let body = go [] 0 data in
-    let body = if fname = "reset" then [] else body in   (* a reset discards what was not read yet *)
-    let final = match quinn_read_condition (fault_of fname fcode) with
+    let body_written = go [] 0 data in
+    let body = if fname = "reset" then [] else body_written in   (* a reset discards what was not read yet *)
+    let final = if fname = "open" then RBlocked else match quinn_read_condition (fault_of fname fcode) with
       | Some e -> RFail e | None -> RFin in
     if !stopped && stop_when <> "idle" then
-      (match body with x :: _ -> [x; RFin] | [] -> [RFin])
+      (* the pending read completes with the first piece (and the deferred stop goes out: end of stream from then on),
+         or - nothing written before the end - with the end of the stream / the error itself *)
+      (match body_written with x :: _ -> [x; RFin] | [] -> [final])
     else if fname = "lclose" then
       (match body with x :: _ -> [x; final] | [] -> [final])
     else body @ [final] in
@@ -414,6 +505,7 @@ let run_qr t =
       | Ready (Panic s) -> ended := Some ("PANIC" ^ string_of_n s)
       | Pending -> ()
     end) answers;
+  (* fault=open: the peer leaves the stream open, the case ends with a read in flight *)
   q 5;
   (* (a model following a mutated source may have lost the stream: still print a line) *)
   let lost = (underlying !r = None) in
@@ -423,20 +515,20 @@ let run_qr t =
     | [] -> if fname = "fin" then "none" else "-" in
   let events_main = !events in
   (* after a failed read: poll again, ask the id, stop, poll once more.  What Quinn 0.11 answers then (observed,
-     not constrained by the property): end of stream after a reset or a local stop, the same error again while
-     the connection is lost *)
+     not constrained by the property): end of stream after a reset (the adapter does not ask: it reports the reset
+     again) or a local stop, the same error again while the connection is lost *)
   let re_n = gi t "re" 0 and restop = (match gs t "restop" "-" with "-" -> None | c -> Some (n_of_string c)) in
   let failed = (match !ended with Some e -> String.length e > 4 && String.sub e 0 4 = "err:" | None -> false) in
   let re_out = ref [] and rs_out = ref "-" in
   let again = match quinn_read_condition (fault_of fname fcode) with
-    | Some (QRConnectionLost e) -> RFail (QRConnectionLost e)
+    | Some (QRConnectionLost e) when und.qr_stops = [] -> RFail (QRConnectionLost e)
     | _ -> RFin in
   if failed && re_n > 0 then begin
     for _ = 1 to re_n do re_out := show (poll again) :: !re_out done;
     ids := (match recv_id !r with Ok i -> string_of_n i | _ -> "PANIC") :: !ids;
     (match restop with
      | Some c ->
-       stop_sending c;
+       ignore (stop_sending c);
        ids := (match recv_id !r with Ok i -> string_of_n i | _ -> "PANIC") :: !ids;
        (* parked instead of delivered = the stream was not at hand *)
        rs_out := (if (!r).r_pending_stop <> None then "PARKED" else show (poll RFin))
@@ -444,40 +536,72 @@ let run_qr t =
   end;
   let re_s = if !re_out = [] then "-" else String.concat "/" (List.rev !re_out) in
   let pclose = if fname = "lclose" then (match conn_close (via_of t) fcode with Ok c -> string_of_n c | _ -> "PANIC") else "-" in
-  let xid = if kind = "uni" then "-" else
-      (match bidi_new id with Ok b -> (match send_id b.b_send with Ok i -> string_of_n i | _ -> "PANIC") | _ -> "PANIC") in
+  let xid = match shalf with None -> "-" | Some x -> (match send_id x with Ok i -> string_of_n i | _ -> "PANIC") in
   let endv = match !ended with Some e -> e | None -> "open" in
   let model = Printf.sprintf "ok end=%s recv=%s pfx=ok p1=%s p2=%s ids=%s pid=%s xid=%s pstop=%s pclose=%s re=%s rs=%s"
       endv (digest (List.concat (List.rev !got))) p1s !p2s
-      (if !ids = [] then "-" else String.concat "," (List.rev !ids)) (string_of_n und.qr_id) xid pstop pclose re_s !rs_out in
+      (if !ids = [] then "-" else String.concat "," (List.rev !ids)) (string_of_n und.qr_id) xid pstop pclose re_s !rs_out
+      ^ (if !sp_out <> "-" then " sp=" ^ !sp_out else "") in
   (* ---- specification line *)
-  let send_ = if stop_when <> "none" then "fin" else
+  (* a stop request whose code is no varint is no request (the call is outside the trait's contract) *)
+  let valid c = (vi_encode c <> None) in
+  let stop_code2 = N.add stop_code (n_of_int 1) in
+  let eff_stop = match stop_when with
+    | "idle" | "pend" -> if valid stop_code then stop_when else "none"
+    | "pend2" -> if valid stop_code2 && valid stop_code then "pend2" else if valid stop_code || valid stop_code2 then "pend" else "none"
+    | _ -> "none" in
+  (* nothing is written before the stream ends: a read that was pending completes with the end / the error itself *)
+  let nothing_written = (chunks = []) || ((fname = "reset" || fname = "close" || fname = "timeout") && fat_i = 0) in
+  let send_ = if eff_stop <> "none" && not (nothing_written && fname <> "fin") then "fin" else
       (match fname with
        | "fin" -> "fin"
-       | _ -> (match spec_read_fault (fault_of fname fcode) with Some e -> "err:" ^ stream_class e | None -> "*")) in
-  let srecv = if fname = "fin" && stop_when = "none" then
+       | _ -> (match spec_read_fault (fault_of fname fcode) with
+           | Some e -> "err:" ^ stream_class e
+           | None -> if fname = "open" then "open" else "*")) in
+  (* the same through the specification's reader (Spec.AdapterSpec.spec_reads) run over the answers Quinn gives in this
+     scenario: the first end / error it yields is how the stream must end for the application *)
+  let send_ =
+    let outs, _ = spec_reads spec_read_class None (nat_of_int (List.length answers)) answers in
+    let rec first = function
+      | [] -> "open" | RoChunk _ :: r -> first r | RoEnd :: _ -> "fin"
+      | RoError (Some e) :: _ -> "err:" ^ stream_class e | RoError None :: _ -> "PANIC" in
+    let e = first outs in
+    if send_ = "*" || send_ = e then e else "SPEC-INCONSISTENT:" ^ send_ ^ "/" ^ e in
+  let srecv = if (fname = "fin" || fname = "open") && eff_stop = "none" then
       digest (List.concat (List.mapi (fun j l -> gen_bytes seed j 0 l) chunks)) else "*" in
-  (* computed from the CASE LINE only: the events the application produces in this scenario *)
+  (* computed from the CASE LINE only: the events the application produces in this scenario (id queries included:
+     they change nothing) *)
+  let other bit = if mask land (1 lsl bit) <> 0 then [EvRecvOther] else [] in
+  let stops = (if valid stop_code then [EvStop stop_code] else [])
+              @ (if stop_when = "pend2" && valid stop_code2 then [EvStop stop_code2] else []) in
   let spec_events = match stop_when with
-    | "idle" -> [EvStop stop_code; EvReadReady]
-    | "pend" -> [EvReadPending; EvStop stop_code; EvReadPending; EvReadReady]
-    | "pend2" -> [EvReadPending; EvStop stop_code; EvStop (N.add stop_code (n_of_int 1)); EvReadPending; EvReadReady]
-    | _ -> [EvReadPending; EvReadReady] in
+    | "idle" -> other 0 @ stops @ [if eff_stop = "idle" then EvReadReady else EvReadPending] @ [EvReadReady]
+    | "pend" | "pend2" -> other 0 @ [EvReadPending] @ other 1 @ stops @ other 3 @ [EvReadPending; EvReadReady]
+    | _ -> other 0 @ [EvReadPending] @ other 1 @ [EvReadReady] in
   let st = stop_run { in_flight = false; held = None; delivered = [] } spec_events in
   let spstop = match st.delivered with c :: _ -> string_of_n c | [] -> if fname = "fin" then "none" else "-" in
   let sid = string_of_n id in
   let sfailed = (fname <> "fin") in
+  (* the peer's reset is sticky: every read after the one that reported it reports it again, whatever Quinn says
+     (here: end of stream, data, blocked) - Spec.AdapterSpec.spec_reads started with the reset seen *)
+  let sticky n = match fname with
+    | "reset" ->
+      let outs, _ = spec_reads spec_read_class None (nat_of_int (n + 1)) [RFail (QRReset fcode); RFin; RChunk [N0]; RBlocked; RFin] in
+      Some (List.map (function RoError (Some e) -> "err:" ^ stream_class e | RoEnd -> "fin" | RoChunk _ -> "data"
+                             | RoError None -> "PANIC") (List.tl outs))
+    | _ -> None in
   let sre = if not (sfailed && re_n > 0) then "-" else
-      (match spec_read_fault (fault_of fname fcode) with
-       | Some (HConnErr c) -> String.concat "/" (List.init re_n (fun _ -> "err:" ^ conn_class c))
+      (match spec_read_fault (fault_of fname fcode), sticky re_n with
+       | _, Some l -> String.concat "/" l
+       | Some (HConnErr c), _ when eff_stop = "none" -> String.concat "/" (List.init re_n (fun _ -> "err:" ^ conn_class c))
        | _ -> "*") in
   let sids = if mask land 39 <> 0 then sid else if mask = 0 && not (sfailed && re_n > 0) then "-" else "*" in
   let spec = Printf.sprintf "ok end=%s recv=%s pfx=ok p1=%s p2=%s ids=%s pid=%s xid=%s pstop=%s pclose=%s re=%s rs=%s"
-      send_ srecv (if stop_when = "idle" then "fin" else "pending")
+      send_ srecv (if eff_stop = "idle" then "fin" else "pending")
       (if String.length stop_when >= 4 && String.sub stop_when 0 4 = "pend" then "pending" else "-")
       sids sid (if kind = "uni" then "-" else sid) spstop
       (if fname = "lclose" then string_of_n fcode else "-") sre
-      (if sfailed && re_n > 0 && restop <> None then "*" else "-") in
+      (if sfailed && re_n > 0 && restop <> None then (match sticky 1 with Some [x] -> x | _ -> "*") else "-") in
   model ^ " | " ^ spec
 
 (* ------------------------------------------------------------------ qa *)
@@ -486,6 +610,10 @@ let run_qa t =
   let fname, fcode, _ = parse_fault (gs t "fault" "close:0") in
   let e = match fname with
     | "close" -> QApplicationClosed fcode | "timeout" -> QTimedOut | "lclose" -> QLocallyClosed
+    | "sreset" -> QConnReset
+    (* a handshake that fails after side A got its 0.5-RTT handle: the peer's CONNECTION_CLOSE / a local TLS failure;
+       the transport error code is whatever the TLS alert was (h3 never looks at it) *)
+    | "pclosed" -> QConnectionClosed (n_of_int 0x130) | "terr" -> QTransportError (n_of_int 0x174)
     | _ -> failwith "fault" in
   let show_c = function Ok _ -> "ok" | Err c -> "err:" ^ conn_class c | Panic s -> "PANIC" ^ string_of_n s in
   let show_s = function Ok _ -> "ok" | Err c -> "err:" ^ stream_class c | Panic s -> "PANIC" ^ string_of_n s in
@@ -497,6 +625,9 @@ let run_qa t =
     | _ -> failwith "op" in
   let pclose = if fname = "lclose" then (match conn_close (via_of t) fcode with Ok c -> string_of_n c | _ -> "PANIC") else "-" in
   let s = "err:" ^ conn_class (spec_conn_class e) in
+  (* close with a code that is no varint panics (outside the contract: h3 only passes its own codes): nothing was
+     closed, the case ends there *)
+  if pclose = "PANIC" then "ok res=- pclose=PANIC | ok res=* pclose=*" else
   Printf.sprintf "ok res=%s pclose=%s | ok res=%s pclose=%s" m pclose s (if fname = "lclose" then string_of_n fcode else "-")
 
 (* ------------------------------------------------------------------ qd *)
@@ -509,6 +640,7 @@ let run_qd t =
   let view = (match vi_encode q4 with Some e -> e | None -> failwith "sid") @ gen_bytes seed 0 0 len in
   let ce = match fname with
     | "close" -> Some (QApplicationClosed fcode) | "timeout" -> Some QTimedOut | "lclose" -> Some QLocallyClosed
+    | "sreset" -> Some QConnReset
     | _ -> None in
   let dclass = function
     | HDNotAvailable -> "notavailable" | HDTooLarge -> "toolarge" | HDConnectionError c -> conn_class c in
@@ -517,7 +649,8 @@ let run_qd t =
     if dir = "send" then begin
       let answer = match fname, ce with
         | "toolarge", _ -> Some QDTooLarge
-        | "disabled", _ -> Some QDUnsupportedByPeer
+        | "disabled", _ -> Some QDUnsupportedByPeer     (* the peer does not accept datagrams *)
+        | "ldisabled", _ -> Some QDDisabled             (* this side does not accept datagrams: Quinn refuses to send any *)
         | _, Some e -> Some (QDConnectionLost e)
         | _ -> None in
       let m = match send_datagram view answer with
@@ -530,7 +663,9 @@ let run_qd t =
       m, sp
     end else begin
       let a = match ce with Some e -> Ready (Err e) | None -> Ready (Ok view) in
-      let m = match poll_incoming_datagram a with
+      (* nothing has arrived yet at the first poll *)
+      let early = (match poll_incoming_datagram Pending with Pending -> "" | _ -> "EARLY-") in
+      let m = early ^ match poll_incoming_datagram a with
         | Ready (Ok b) -> "res=ok recv=" ^ digest b
         | Ready (Err c) -> "res=err:" ^ conn_class c ^ " recv=" ^ digest []
         | Ready (Panic s) -> "res=PANIC" ^ string_of_n s ^ " recv=-"
